@@ -66,6 +66,7 @@ func cmdReplay(args []string) {
 	replays := fs.String("replays", "/verif/replays", "directory for replay files")
 	findings := fs.String("findings", "/verif/known_findings.json", "known findings")
 	file := fs.String("file", "", "re-execute one replay file instead of reading tours")
+	addr := fs.String("addr", "", "addressing mode: host:<base> | slashes")
 	fs.Parse(args)
 
 	kf := loadFindings(*findings)
@@ -74,7 +75,7 @@ func cmdReplay(args []string) {
 		return
 	}
 	cfg := &RunCfg{Property: *prop, Systems: strings.Split(*systems, ","), Opts: parseOpts(*opts), Seed: *seed,
-		Thorough: *thorough, Small: *small, KeyModes: parseKeyModes(*keys), Reopen: *reopen, Workers: *workers}
+		Thorough: *thorough, Small: *small, KeyModes: parseKeyModes(*keys), Reopen: *reopen, Workers: *workers, Addr: *addr}
 	sum := replayTours(os.Stdin, cfg, kf, 40)
 	rep := finalReport{ReplaySummary: sum}
 	for _, m := range sum.Mismatches {
@@ -102,7 +103,7 @@ func replayFile(path string, kf *Findings) {
 		fmt.Fprintln(os.Stderr, err)
 		os.Exit(2)
 	}
-	cfg := &RunCfg{Property: m.Property, Opts: m.Opts, Seed: m.Seed, Thorough: m.Thorough, Small: m.Small, Reopen: m.Reopen}
+	cfg := &RunCfg{Property: m.Property, Opts: m.Opts, Seed: m.Seed, Thorough: m.Thorough, Small: m.Small, Reopen: m.Reopen, Addr: m.Addr}
 	m2, _, err := runTour(cfg, m.System, m.Salt, m.KeyMode, m.Tour)
 	if err != nil {
 		fmt.Fprintln(os.Stderr, err)
